@@ -598,7 +598,12 @@ class SeedingChain(Stream):
                 errs.append('seed on a reference that was not given: %s' % r)
             if len(pk) > 10:
                 errs.append('more than 10 secondary peaks')
-            if any(not (p - sp['margin'] <= x <= p + sp['margin'] + sp['res2']) for x in pk):
+            rlen = {rr[0]: rr[1] for rr in refs}.get(r, 0)
+            whole = p - sp['margin'] >= 0 and p + query[1] + sp['margin'] <= rlen
+            # only when the refined window lies inside the reference: a window cut short by a reference end can be SHORTER than the query
+            # vector, scipy.correlate then swaps its operands and the lags are no longer offsets of the query inside the window
+            # (vp soak, VERIF_SEED=4: a query with a 45 kb unlabelled tail on a reference of its own length) - not a clause of C16
+            if whole and any(not (p - sp['margin'] <= x <= p + sp['margin'] + sp['res2']) for x in pk):
                 errs.append('secondary peak outside [primary - margin, primary + margin]: %s around %s' % (pk, p))
         return ['%s (case %s)' % (e, {k: case[k] for k in case if k not in ('refs', 'query')}) for e in errs[:2]]
 
